@@ -197,6 +197,13 @@ class Wrappers(Suite):
                     for mode in ("complete", "incomplete", "uniform"):
                         for _ in range(reps):
                             cases.append({"n": n, "m": m, "steps": steps, "mode": mode, "seed": rng.randrange(10 ** 9)})
+        # few elements, many rankings, incomplete: some ranking loses every element (and is dropped) BEFORE another one is generated -
+        # state shared between the rankings of one call would show in the next one
+        for n in (2, 3, 4):
+            for m in (4, 6, 8):
+                for steps in (15, 40):
+                    for _ in range(10 if tier == "quick" else 60):
+                        cases.append({"n": n, "m": m, "steps": steps, "mode": "incomplete", "seed": rng.randrange(10 ** 9)})
         return cases
 
     def run(self, case):
